@@ -426,23 +426,59 @@ def rule_cleave(chk, repo, rid='C10.e'):
             lo_, up_ = idx_of(x.slice.lower), idx_of(x.slice.upper)
             if lo_ and up_ and lo_[0] == up_[0]:
                 wins.append((x, lo_[0], lo_[1], up_[1]))
+    elem_form = None
     if len(wins) != 1:
-        raise AnalysisError(f"anchor={CLEAVE}: the window `{me}[<sites>[a]:<sites>[b]]` not found exactly once ({len(wins)})")
-    win, S, a, b = wins[0]
-    loops = []
-    x = win
-    while id(x) in parent:
-        x = parent[id(x)]
-        if isinstance(x, (ast.For, ast.While)):
-            loops.append(x)
-    if len(loops) != 2:
-        raise AnalysisError(f"anchor={CLEAVE}: expected the window inside two nested loops, found {len(loops)}")
-    inner, outer = loops
+        # the same window written over the ELEMENTS of the boundary list: `for a, A in enumerate(S[..]): for k, B in enumerate(S[a + 1:]): self[A:B]`
+        cand = [x for x in walk_no_nested(n) if isinstance(x, ast.Subscript) and isinstance(x.slice, ast.Slice) and unparse(x.value) == me and x.slice.step is None
+                and isinstance(x.slice.lower, ast.Name) and isinstance(x.slice.upper, ast.Name)]
+        if len(cand) == 1:
+            x = cand[0]
+            lps = []
+            y = x
+            while id(y) in parent:
+                y = parent[id(y)]
+                if isinstance(y, (ast.For, ast.While)):
+                    lps.append(y)
+            if len(lps) == 2:
+                ei, eo = sem.enum_slice_loop(n, lps[0]), sem.enum_slice_loop(n, lps[1])
+                if ei and eo and eo[1] == x.slice.lower.id and ei[1] == x.slice.upper.id and ei[2] == eo[2]:
+                    elem_form = (x, lps[0], lps[1], ei, eo)
+        if elem_form is None:
+            raise AnalysisError(f"anchor={CLEAVE}: the window `{me}[<sites>[a]:<sites>[b]]` not found exactly once ({len(wins)})")
+    if elem_form is not None:
+        win, inner, outer, ei, eo = elem_form
+        S, a, b = eo[2], eo[0], ei[0]
+    else:
+        win, S, a, b = wins[0]
+        loops = []
+        x = win
+        while id(x) in parent:
+            x = parent[id(x)]
+            if isinstance(x, (ast.For, ast.While)):
+                loops.append(x)
+        if len(loops) != 2:
+            raise AnalysisError(f"anchor={CLEAVE}: expected the window inside two nested loops, found {len(loops)}")
+        inner, outer = loops
     chains = sem.block_chains(n)
     lenS = Aff.sym(f"len({S})")
+    if elem_form is not None:
+        # positions: first boundary at lo_o + a, second at lo_i + k; the index a names the first boundary only if lo_o == 0
+        _i_o, _x_o, _S, lo_o, ups_o, pr_o = eo
+        _i_i, _x_i, _S2, lo_i, ups_i, pr_i = ei
+        P = lo_o + Aff.sym(a)
+        chk.ob(rid, 'outer loop visits every start site', repo.loc(f, outer), lo_o == Aff(0) and ups_o == frozenset([lenS - 1]),
+               f"the first boundary runs over positions [{lo_o!r}, min{sorted(map(repr, ups_o))}) instead of [0, len({S}) - 1)", key=CLEAVE + '::outer-test', fn=f.qual)
+        chk.ob(rid, 'outer iteration advances the first boundary exactly once', repo.loc(f, outer), not pr_o and not sem.own_exits(outer),
+               'outer loop bookkeeping altered: ' + '; '.join(pr_o + [f"early exit `{norm_stmt(e)}`" for e in sem.own_exits(outer)]), key=CLEAVE + '::outer-once', fn=f.qual)
+        want = frozenset([P + Aff.sym('miscleavage') + 2, lenS])
+        chk.ob(rid, 'inner loop admits exactly miscleavage+1 consecutive fragments', repo.loc(f, inner), lo_i == P + 1 and ups_i == want and not pr_i,
+               f"the second boundary runs over positions [{lo_i!r}, min{sorted(map(repr, ups_i))}) instead of [{a} + 1, min({a} + miscleavage + 2, len({S})))",
+               key=CLEAVE + '::inner-test', fn=f.qual)
     # --- outer domain
-    od = sem.counted_loop(n, outer, chains)
-    if od is None:
+    od = sem.counted_loop(n, outer, chains) if elem_form is None else ()
+    if elem_form is not None:
+        pass
+    elif od is None:
         chk.undecided(rid, 'outer loop visits every start site', repo.loc(f, outer), f"the loop `{unparse(outer).splitlines()[0]}` is not a recognised counting loop", key=CLEAVE + '::outer-test', fn=f.qual)
         chk.undecided(rid, 'outer iteration resets end and advances start exactly once', repo.loc(f, outer), 'see outer-test', key=CLEAVE + '::outer-once', fn=f.qual)
     else:
@@ -453,8 +489,10 @@ def rule_cleave(chk, repo, rid='C10.e'):
         chk.ob(rid, 'outer iteration advances the first boundary exactly once', repo.loc(f, outer), not probs and not sem.own_exits(outer),
                'outer loop bookkeeping altered: ' + '; '.join(probs + [f"early exit `{norm_stmt(e)}`" for e in sem.own_exits(outer)]), key=CLEAVE + '::outer-once', fn=f.qual)
     # --- inner domain
-    idm = sem.counted_loop(n, inner, chains)
-    if idm is None:
+    idm = sem.counted_loop(n, inner, chains) if elem_form is None else ()
+    if elem_form is not None:
+        pass
+    elif idm is None:
         chk.undecided(rid, 'inner loop admits exactly miscleavage+1 consecutive fragments', repo.loc(f, inner), f"the loop `{unparse(inner).splitlines()[0]}` is not a recognised counting loop", key=CLEAVE + '::inner-test', fn=f.qual)
     else:
         v, lo, ups, probs = idm
@@ -479,6 +517,18 @@ def rule_cleave(chk, repo, rid='C10.e'):
              and len(st.value.args) == 1 and is_win(st.value.args[0])]
     nested_whole = [c for c in G.find_calls(inner, U.name) if len(c.args) == 1 and is_win(c.args[0])]
     exits = sem.own_exits(inner)
+    guard_lits = set()
+    if elem_form is not None:
+        # the leading `if <index beyond the miscleavage bound>: break` guards are the loop's bound (already part of its domain), not early exits
+        lead = []
+        for st_ in inner.body:
+            if isinstance(st_, ast.If) and not st_.orelse and len(st_.body) == 1 and isinstance(st_.body[0], ast.Break):
+                lead.append(st_)
+            else:
+                break
+        exits = [e for e in exits if not any(e is g_.body[0] for g_ in lead)]
+        for g_ in lead:
+            guard_lits |= (sem.conj_literals(g_.test, False) or set())
     chk.ob(rid, 'every inner iteration emits the window and advances (no early exit)', repo.loc(f, inner),
            len(whole) == 1 and len(nested_whole) == 1 and not exits and (W is None or wstmt in inner.body),
            'the window loop leaves early or does not hand every window to the digest filter unconditionally: some digestion '
@@ -501,7 +551,7 @@ def rule_cleave(chk, repo, rid='C10.e'):
         # value facts of locals bound to a display / constant (`peptides = []`) are not conditions
         valued = {t.id for st in ast.walk(n) if isinstance(st, ast.Assign) and isinstance(st.value, (ast.List, ast.Constant, ast.Dict, ast.Set, ast.Tuple))
                   for t in st.targets if isinstance(t, ast.Name)}
-        extra = {l for l in lits - need - allowed if l[0] not in valued}
+        extra = {l for l in lits - need - allowed - guard_lits if l[0] not in valued}
         ok = need <= lits and not extra
         if not ok:
             detail += f": missing {sorted(need - lits)}, additional conditions {sorted(extra)}"
